@@ -244,6 +244,13 @@ def gen_session(seed):
         extra = [["snip", [["deepchain", j_ % 3, g.id()]]] for j_ in range(4)]
         extra.append(["snip", [["fiber", 0, g.site(), g.site(), g.id()], ["probechain", 0, g.id()]]])
         sess[at:at] = extra
+    if rng.chance(1.0 / 10):
+        # a run that ENDS WELL with an exception still in flight: a fiber is left suspended by a yield inside a finally block that
+        # runs because of an uncaught throw. The next run must start with no exception in flight all the same (its try/finally
+        # statements complete normally). The fiber is never resumed, and no try statement follows in the same snippet (both
+        # would be the open finding K-try-inside-pending-finally).
+        at = rng.below(len(sess) + 1)
+        sess[at:at] = [["snip", [["parkfin", g.id()]]], ["snip", [["tryfin", g.id(), g.site()], ["trycatch", g.id()]]]]
     # closing probe: all globals, a clean try/finally and a clean try/catch must behave
     sess.append(["snip", [["probe", g.id()], ["tryfin", g.id(), g.site()], ["trycatch", g.id()], ["corelib", g.id()], ["probe", g.id()]]])
     return {"session": sess, "sites": g.sites, "mod_sites": {str(k): v for k, v in g.mod_sites.items()}}
@@ -395,6 +402,8 @@ def render_snip(stmts, uid, stale=()):
             # (a throw-away range of its own first: one more distinct range for the interpreter's cache to cope with)
             out.append('var tr%s = 900..%d; print(("ev", %d, rg%d == %d..%d, {rg%d: 1}.has_key(%d..%d)));' % (
                 u, 901 + st[2], st[2], st[1], st[1] + 1, st[1] + 5, st[1], st[1] + 1, st[1] + 5))
+        elif k == "parkfin":
+            out.append('var pk%s = Fiber.new(|| { try { throw "pk"; } finally { Fiber.yield(%d); } }); print(("ev", %d, pk%s.call()));' % (u, st[1], st[1], u))
         elif k == "sevenranges":
             # seven distinct ranges: together with one kept range the interpreter's range cache is exactly full
             out.append('var sr%s = 0; for q in [200..201, 200..202, 200..203, 200..204, 200..205, 200..206, 200..207] { sr%s = sr%s + 1; } print(("ev", %d, sr%s));' % (
@@ -765,6 +774,9 @@ def model(ir, faults):
                     for k_ in st["range_age"]:
                         st["range_age"][k_] += 10
                     ev.append([num(stt[1]), num(10)])
+                elif k == "parkfin":
+                    probes.inc("run_ended_well_with_a_fiber_parked_in_a_finally_with_an_exception_in_flight")
+                    ev.append([num(stt[1]), num(stt[1])])
                 elif k == "sevenranges":
                     for k_ in st["range_age"]:
                         st["range_age"][k_] += 7
